@@ -21,8 +21,10 @@ import (
 )
 
 var connVals = []string{"Upgrade", "upgrade", "UPGRADE", "keep-alive, Upgrade", "Upgrade, keep-alive", "keep-alive", "upgrade ,x", "upgrade,", ",upgrade", "Upgrades", "up grade", "keep-alive,upgrade", "close", "\tupgrade"}
-var upgVals = []string{"websocket", "WebSocket", "WEBSOCKET", "websocket, h2c", "h2c, websocket", "h2c", "websockets", "web socket", "websocket/13"}
-var swpVals = []string{"grpc-websockets", "a, grpc-websockets", "grpc-websockets, b", "GRPC-Websockets", "grpc-websockets2", "xgrpc-websockets", "a,grpc-websockets,b", "graphql-ws", "grpc-websockets ;q=1"}
+var upgVals = []string{"websocket", "WebSocket", "WEBSOCKET", "websocket, h2c", "h2c, websocket", "h2c", "websockets", "web socket", "websocket/13",
+	// bytes that only Unicode case folding (not ASCII folding) maps onto the token: U+017F long s, U+212A Kelvin sign
+	"web\u017focket", "websoc\u212aet", "h2c, web\u017focket", "WEB\u017fOC\u212aET"}
+var swpVals = []string{"grpc-websockets", "a, grpc-websockets", "grpc-websockets, b", "GRPC-Websockets", "grpc-websockets2", "xgrpc-websockets", "a,grpc-websockets,b", "graphql-ws", "grpc-websockets ;q=1", "grpc-web\u017fockets", "a, grpc-websoc\u212aets"}
 var ctVals = []string{"application/grpc-web", "application/grpc-web+proto", "Application/GRPC-Web+proto", "application/grpc-web-text", "application/grpc-web; charset=utf-8", "application/grpc-web+json ; a=b",
 	"application/grpc", "application/json", "text/plain; x=application/grpc-web", "APPLICATION/GRPC-WEB-TEXT+PROTO", "application/grpc-webby", "xapplication/grpc-web", "application /grpc-web"}
 
